@@ -849,11 +849,46 @@ func runEndDelivered(c *Ctx) {
 			continue
 		}
 		n++
-		// every path from the End write to this return passes a wait on the reader's done channel
+		// every path from the End write to this return passes a wait on the reader's done channel, or the test that the tree has files
+		// (`<number of files> == 0` false): their acknowledgements have made the sender wait for the receiver, which takes the close of
+		// the connection for the end once every file is complete
 		okAll := true
-		seen := map[*ast.ReturnStmt]bool{}
-		_ = seen
-		waited := allPathsHitUntil(cfg, endRef, isWait, ret)
+		hasFiles := func(nd ast.Node) bool { return false }
+		_ = hasFiles
+		waited := allPathsHitUntilEdge(cfg, endRef, isWait, func(cond ast.Expr, val bool) bool {
+			for _, a := range Implied(cond, val) {
+				be, ok := ast.Unparen(a.E).(*ast.BinaryExpr)
+				if !ok {
+					continue
+				}
+				v, isVar := ObjOf(info, be.X).(*types.Var)
+				if !isVar {
+					continue
+				}
+				tv := info.Types[be.Y]
+				if tv.Value == nil || constant.Sign(tv.Value) != 0 {
+					continue
+				}
+				// the variable counts the files: its definition is len(..)
+				counts := false
+				if own := owningFunc(send, v); own != nil {
+					for _, d := range allDefs(own, v) {
+						if call, ok := ast.Unparen(d).(*ast.CallExpr); ok {
+							if id, ok := ast.Unparen(call.Fun).(*ast.Ident); ok && id.Name == "len" {
+								counts = true
+							}
+						}
+					}
+				}
+				if !counts {
+					continue
+				}
+				if (be.Op == token.EQL && !a.Val) || (be.Op == token.GTR && a.Val) || (be.Op == token.NEQ && a.Val) {
+					return true
+				}
+			}
+			return false
+		}, ret)
 		if !waited {
 			okAll = false
 		}
@@ -1027,4 +1062,40 @@ func nulOnly(info *types.Info, call *ast.CallExpr) bool {
 		return ok && v == 0
 	}
 	return false
+}
+
+// allPathsHitUntilEdge is allPathsHitUntil with a second way to be satisfied: taking a conditional edge on which goodEdge(cond, value) holds.
+func allPathsHitUntilEdge(c *CFG, from NodeRef, good func(ast.Node) bool, goodEdge func(cond ast.Expr, val bool) bool, ret *ast.ReturnStmt) bool {
+	ok := true
+	seen := map[NodeRef]bool{}
+	var walk func(r NodeRef)
+	walk = func(r NodeRef) {
+		if !ok || seen[r] {
+			return
+		}
+		seen[r] = true
+		b := r.B
+		for i := r.I; i < len(b.Nodes); i++ {
+			nd := b.Nodes[i]
+			if good(nd) {
+				return
+			}
+			if nd == ast.Node(ret) {
+				ok = false
+				return
+			}
+		}
+		cond, t, f, isCond := CondEdges(b)
+		for _, s := range b.Succs {
+			if !s.Live {
+				continue
+			}
+			if isCond && ((s == t && goodEdge(cond, true)) || (s == f && goodEdge(cond, false))) {
+				continue
+			}
+			walk(NodeRef{s, 0})
+		}
+	}
+	walk(NodeRef{from.B, from.I + 1})
+	return ok
 }
